@@ -72,7 +72,7 @@ func (m *metrics) SetIsLeader(v float64, l prometheus.Labels) {
 	if v != 0 {
 		b = 1
 	}
-	in, root := callSite()
+	in, root := flagSite()
 	m.in.w.tr.rec("flag", int64(m.in.idx), b, in, root, gid())
 }
 func (m *metrics) SetConnectionStatus(v float64, l prometheus.Labels) {
